@@ -11,6 +11,7 @@ import PercevalModel.Proto
 import PercevalModel.Model.C19
 import PercevalModel.Model.C19TW
 import PercevalModel.Model.C19Crash
+import PercevalModel.Model.C19Conc
 
 open Lean PM PM.Proto PM.C19
 
@@ -340,7 +341,36 @@ def handleTw (j : Json) : Json :=
     Json.mkObj [("accepts_new", toJson (TW.accepts new)), ("ends_black", toJson (TW.endsBlack new)),
                 ("out", Json.arr ((cuts.map fun c => outJ (TW.reopen (TW.fileAt impl old new c))).toArray))]
 
+/-! two objects of one name: {"conc": {"variant": …, "dir": b, "acts": [{"h": 0|1, "op": {…}}]}} → {"steps":
+   [{"res", "view", "who", "mem" (the acting object's list), "disk", "other" (the waiting object's list | null),
+     "next"}], "disc": b (the history obeys the re-open discipline), "issued", "retired"} -/
+def handleConc (j : Json) : Json :=
+  match (do
+    let v ← variantOf (← reqKey j "variant")
+    let dir ← (← reqKey j "dir").getBool?
+    let acts ← (← (← reqKey j "acts").getArr?).toList.mapM (fun a => do
+      let h ← (← reqKey a "h").getNat?
+      if h > 1 then throw s!"bad object {h}"
+      let op ← opOf (← reqKey a "op")
+      pure ((h == 1, op) : Conc.Act))
+    pure (v, dir, acts) : Except String (Variant × Bool × List Conc.Act)) with
+  | .error e => errJson e
+  | .ok (v, dir, acts) =>
+    let r := acts.foldl (fun (acc : Conc.Two × List Json) a =>
+      let r := Conc.step2 v acc.1 a
+      (r.1, acc.2 ++ [Json.mkObj [("res", resJ r.2.res), ("view", toJson r.2.view),
+        ("who", toJson (if r.1.who then 1 else 0)),
+        ("mem", Json.arr (r.1.cur.mem.map jobJ).toArray),
+        ("disk", match r.1.cur.disk with | none => .null | some d => Json.arr (d.map djobJ).toArray),
+        ("other", match r.1.other with | none => .null | some m => Json.arr (m.map jobJ).toArray),
+        ("next", toJson r.1.cur.next)]])) (Conc.init2 v dir, [])
+    Json.mkObj [("steps", Json.arr r.2.toArray), ("disc", toJson (Conc.disc false acts)),
+                ("issued", toJson r.1.cur.issued), ("retired", toJson r.1.cur.retired)]
+
 def handle (j : Json) : Json :=
+  match optKey j "conc" with
+  | some r => handleConc r
+  | none =>
   match optKey j "fs" with
   | some ops => handleFs ops
   | none =>
